@@ -1,1 +1,981 @@
-//! uniform access to every exported data type (filled in below)
+//! Uniform access to every exported data type of the library: its byte / serde_bare /
+//! serde_json codecs, the points and scalars it contains, honest sample values, and the
+//! consuming methods a decoded value can be fed to (C15, C16, C17, C18, C19).
+
+use crate::gen;
+use crate::refimpl::{Scheme, SCHEMES};
+use crate::suite::*;
+use blsful::inner_types::{Field, Group};
+use blsful::vsss_rs::Share;
+use blsful::*;
+use rand_chacha::ChaCha20Rng;
+use serde::de::DeserializeOwned;
+use serde::Serialize;
+
+/// The codecs every data type offers.
+pub trait Wire: Sized + Clone + PartialEq + Serialize + DeserializeOwned {
+    fn w_bytes(&self) -> Vec<u8>;
+    fn w_from(b: &[u8]) -> Result<Self, String>;
+    /// the four byte-container conversions: From<T> for Vec<u8>, TryFrom<Vec<u8>>,
+    /// TryFrom<&Vec<u8>>, TryFrom<Box<[u8]>>
+    fn w_into_vec(self) -> Vec<u8>;
+    fn w_from_vec(v: Vec<u8>) -> Result<Self, String>;
+    fn w_from_vec_ref(v: &Vec<u8>) -> Result<Self, String>;
+    fn w_from_box(v: Box<[u8]>) -> Result<Self, String>;
+    fn bare(&self) -> Result<Vec<u8>, String> {
+        serde_bare::to_vec(self).map_err(|e| e.to_string())
+    }
+    fn from_bare(b: &[u8]) -> Result<Self, String> {
+        serde_bare::from_slice(b).map_err(|e| e.to_string())
+    }
+    fn json(&self) -> Result<Vec<u8>, String> {
+        serde_json::to_vec(self).map_err(|e| e.to_string())
+    }
+    fn from_json(b: &[u8]) -> Result<Self, String> {
+        serde_json::from_slice(b).map_err(|e| e.to_string())
+    }
+}
+
+impl<T> Wire for T
+where
+    T: Clone
+        + PartialEq
+        + Serialize
+        + DeserializeOwned
+        + for<'a> TryFrom<&'a [u8], Error = BlsError>
+        + TryFrom<Vec<u8>, Error = BlsError>
+        + for<'a> TryFrom<&'a Vec<u8>, Error = BlsError>
+        + TryFrom<Box<[u8]>, Error = BlsError>
+        + Into<Vec<u8>>,
+    for<'a> Vec<u8>: From<&'a T>,
+{
+    fn w_bytes(&self) -> Vec<u8> {
+        Vec::from(self)
+    }
+    fn w_from(b: &[u8]) -> Result<Self, String> {
+        T::try_from(b).map_err(|e| e.to_string())
+    }
+    fn w_into_vec(self) -> Vec<u8> {
+        self.into()
+    }
+    fn w_from_vec(v: Vec<u8>) -> Result<Self, String> {
+        T::try_from(v).map_err(|e| e.to_string())
+    }
+    fn w_from_vec_ref(v: &Vec<u8>) -> Result<Self, String> {
+        T::try_from(v).map_err(|e| e.to_string())
+    }
+    fn w_from_box(v: Box<[u8]>) -> Result<Self, String> {
+        T::try_from(v).map_err(|e| e.to_string())
+    }
+}
+
+#[derive(Copy, Clone, Debug, PartialEq, Eq)]
+pub enum PtKind {
+    /// a point of the signature group, validated by the decoder
+    Sig,
+    /// a point of the key group, validated by the decoder
+    Pk,
+    /// unparsed signature-group payload of a share container (validated on use)
+    SigShare,
+    /// unparsed key-group payload of a share container (validated on use)
+    PkShare,
+}
+
+/// Honest material that samples and consumers draw on.
+pub struct Env<C: Suite> {
+    pub sk: SecretKey<C>,
+    pub pk: PublicKey<C>,
+    pub sk2: SecretKey<C>,
+    pub pk2: PublicKey<C>,
+    pub msg: Vec<u8>,
+    pub id: Vec<u8>,
+    pub shares: Vec<SecretKeyShare<C>>,
+    pub pk_shares: Vec<PublicKeyShare<C>>,
+    pub y: ProofCommitmentChallenge<C>,
+}
+
+impl<C: Suite> Env<C> {
+    pub fn new(rng: &mut ChaCha20Rng) -> Self {
+        let sk = sk_from_rs::<C>(&gen::random_scalar(rng));
+        let sk2 = sk_from_rs::<C>(&gen::random_scalar(rng));
+        let shares = sk.split_with_rng(2, 3, &mut *rng).expect("split");
+        let pk_shares = shares.iter().map(|s| s.public_key().expect("pk share")).collect();
+        Env {
+            pk: sk.public_key(),
+            pk2: sk2.public_key(),
+            sk,
+            sk2,
+            msg: gen::random_bytes(24, rng),
+            id: gen::random_bytes(8, rng),
+            shares,
+            pk_shares,
+            y: ProofCommitmentChallenge::<C>::from_hash(b"env challenge"),
+        }
+    }
+    pub fn sig(&self, s: Scheme) -> Signature<C> {
+        self.sk.sign(lscheme(s), &self.msg).expect("sign")
+    }
+}
+
+pub trait Subject<C: Suite>: Wire {
+    const NAME: &'static str;
+    /// encoded length depends only on the type and the group
+    const FIXED: bool;
+    /// the byte form has one exact length and the decoder must reject every other (C16)
+    const EXACT_LEN: bool = false;
+    /// label of the enum variant (for the per-variant length table)
+    fn variant(&self) -> String {
+        String::new()
+    }
+    /// every point held by the value, re-extracted as compressed bytes
+    fn points(&self) -> Vec<(&'static str, PtKind, Vec<u8>)>;
+    /// every scalar held by the value that the property requires to be non-zero when imported from bytes
+    fn nonzero_scalars(&self) -> Vec<[u8; 32]> {
+        vec![]
+    }
+    /// valid values: honest ones and the edge values of C15
+    fn samples(env: &Env<C>, rng: &mut ChaCha20Rng, thorough: bool) -> Vec<(String, Self)>;
+    /// feed the value to every consuming method of its type (C17). Must not panic.
+    fn consume(&self, env: &Env<C>);
+}
+
+pub trait Visitor<C: Suite> {
+    fn visit<T: Subject<C>>(&mut self, env: &Env<C>, rng: &mut ChaCha20Rng);
+}
+
+/// Visit every exported data type that has the full codec set.
+pub fn visit_all<C: Suite, V: Visitor<C>>(v: &mut V, env: &Env<C>, rng: &mut ChaCha20Rng) {
+    v.visit::<SecretKey<C>>(env, rng);
+    v.visit::<SecretKeyEnum>(env, rng);
+    v.visit::<PublicKey<C>>(env, rng);
+    v.visit::<Signature<C>>(env, rng);
+    v.visit::<AggregateSignature<C>>(env, rng);
+    v.visit::<MultiSignature<C>>(env, rng);
+    v.visit::<MultiPublicKey<C>>(env, rng);
+    v.visit::<ProofOfPossession<C>>(env, rng);
+    v.visit::<ProofCommitment<C>>(env, rng);
+    v.visit::<ProofCommitmentSecret<C>>(env, rng);
+    v.visit::<ProofCommitmentChallenge<C>>(env, rng);
+    v.visit::<ProofOfKnowledge<C>>(env, rng);
+    v.visit::<ProofOfKnowledgeTimestamp<C>>(env, rng);
+    v.visit::<SecretKeyShare<C>>(env, rng);
+    v.visit::<PublicKeyShare<C>>(env, rng);
+    v.visit::<SignatureShare<C>>(env, rng);
+    v.visit::<SignCryptCiphertext<C>>(env, rng);
+    v.visit::<SignCryptDecryptionKey<C>>(env, rng);
+    v.visit::<SignDecryptionShare<C>>(env, rng);
+    v.visit::<TimeCryptCiphertext<C>>(env, rng);
+    v.visit::<ElGamalCiphertext<C>>(env, rng);
+    v.visit::<ElGamalProof<C>>(env, rng);
+    v.visit::<ElGamalDecryptionShare<C>>(env, rng);
+    v.visit::<ElGamalDecryptionKey<C>>(env, rng);
+    v.visit::<InnerPointShareG1>(env, rng);
+    v.visit::<InnerPointShareG2>(env, rng);
+}
+
+pub const TYPE_COUNT_WITH_BYTES: usize = 26;
+
+fn sink<T>(t: T) {
+    std::hint::black_box(t);
+}
+
+fn fmt_sink<T: core::fmt::Debug>(t: &T) {
+    sink(format!("{t:?}"));
+}
+
+fn disp_sink<T: core::fmt::Display>(t: &T) {
+    sink(format!("{t}"));
+}
+
+fn edge_sks<C: Suite>(rng: &mut ChaCha20Rng) -> Vec<(String, Sc<C>)> {
+    gen::edge_scalars(rng).into_iter().map(|(n, s)| (n.to_string(), sc_from_rs::<C>(&s))).collect()
+}
+
+// ------------------------------------------------------------------------------------------
+impl<C: Suite> Subject<C> for SecretKey<C> {
+    const NAME: &'static str = "SecretKey";
+    const FIXED: bool = true;
+    const EXACT_LEN: bool = true;
+    fn points(&self) -> Vec<(&'static str, PtKind, Vec<u8>)> {
+        vec![]
+    }
+    fn nonzero_scalars(&self) -> Vec<[u8; 32]> {
+        vec![sk_be::<C>(self)]
+    }
+    fn samples(_env: &Env<C>, rng: &mut ChaCha20Rng, _t: bool) -> Vec<(String, Self)> {
+        edge_sks::<C>(rng).into_iter().map(|(n, s)| (n, SecretKey(s))).collect()
+    }
+    fn consume(&self, env: &Env<C>) {
+        sink(self.to_be_bytes());
+        sink(self.to_le_bytes());
+        fmt_sink(self);
+        // in scope for C17: accessors and the DEcrypt functions (signing / encrypting with a
+        // decoded key is not among the functions the property quantifies over)
+        sink(self.public_key());
+        let ct = env.pk.sign_crypt(SignatureSchemes::Basic, &env.msg);
+        sink(ct.decrypt(self).is_some().unwrap_u8());
+        sink(self.sign_decryption_key::<&[u8]>(&ct).decrypt(&ct).is_some().unwrap_u8());
+        if let Ok(e) = env.pk.encrypt_key_el_gamal(&env.sk2) {
+            sink(e.decrypt(self));
+        }
+        if let Ok(p) = env.pk.encrypt_key_el_gamal_with_proof(&env.sk2) {
+            sink(p.verify_and_decrypt(self).is_ok());
+        }
+    }
+}
+
+impl<C: Suite> Subject<C> for SecretKeyEnum {
+    const NAME: &'static str = "SecretKeyEnum";
+    const FIXED: bool = true;
+    const EXACT_LEN: bool = true;
+    fn variant(&self) -> String {
+        match self {
+            SecretKeyEnum::G1(_) => "G1".into(),
+            SecretKeyEnum::G2(_) => "G2".into(),
+        }
+    }
+    fn points(&self) -> Vec<(&'static str, PtKind, Vec<u8>)> {
+        vec![]
+    }
+    fn nonzero_scalars(&self) -> Vec<[u8; 32]> {
+        match self {
+            SecretKeyEnum::G1(k) => vec![k.to_be_bytes()],
+            SecretKeyEnum::G2(k) => vec![k.to_be_bytes()],
+        }
+    }
+    fn samples(_env: &Env<C>, rng: &mut ChaCha20Rng, _t: bool) -> Vec<(String, Self)> {
+        let mut v = Vec::new();
+        for (n, s) in gen::edge_scalars(rng) {
+            let b = s.to_be_bytes();
+            v.push((format!("G1/{n}"), SecretKeyEnum::G1(Option::from(SecretKey::from_be_bytes(&b)).expect("sk"))));
+            v.push((format!("G2/{n}"), SecretKeyEnum::G2(Option::from(SecretKey::from_be_bytes(&b)).expect("sk"))));
+        }
+        v
+    }
+    fn consume(&self, _env: &Env<C>) {
+        sink(self.to_be_bytes());
+        sink(self.to_le_bytes());
+        fmt_sink(self);
+        sink(Vec::from(self));
+    }
+}
+
+fn pk_consume<C: Suite>(pk: PublicKey<C>, env: &Env<C>) {
+    // in scope for C17: every VERIFY function that takes a public key (encrypting to a decoded
+    // key is not among the functions the property quantifies over)
+    disp_sink(&pk);
+    fmt_sink(&pk);
+    for s in SCHEMES {
+        sink(env.sig(s).verify(&pk, &env.msg).is_ok());
+        sink(crate::monitors::util::wrap_agg::<C>(s, *env.sig(s).as_raw_value()).verify(&[(pk, env.msg.clone()), (env.pk2, env.id.clone())]).is_ok());
+    }
+    sink(env.sk.proof_of_possession().map(|p| p.verify(pk).is_ok()));
+    sink(env.pk.encrypt_key_el_gamal_with_proof(&env.sk2).map(|p| p.verify(pk).is_ok()));
+    let sig = env.sig(Scheme::Pop);
+    sink(ProofCommitment::<C>::generate(&env.msg, sig).and_then(|(c, x)| c.finalize(x, env.y, sig)).map(|p| p.verify(pk, &env.msg, env.y).is_ok()));
+    sink(ProofOfKnowledgeTimestamp::<C>::generate(&env.msg, sig).map(|p| p.verify(pk, &env.msg, Some(60_000)).is_ok()));
+    sink(MultiPublicKey::<C>::from_public_keys([pk, env.pk2]));
+}
+
+impl<C: Suite> Subject<C> for PublicKey<C> {
+    const NAME: &'static str = "PublicKey";
+    const FIXED: bool = true;
+    const EXACT_LEN: bool = true;
+    fn points(&self) -> Vec<(&'static str, PtKind, Vec<u8>)> {
+        vec![("pk", PtKind::Pk, enc_pt(&self.0))]
+    }
+    fn samples(env: &Env<C>, rng: &mut ChaCha20Rng, _t: bool) -> Vec<(String, Self)> {
+        let mut v = vec![("honest".to_string(), env.pk), ("identity".to_string(), PublicKey(pk_id::<C>())), ("generator".to_string(), PublicKey(pk_gen::<C>()))];
+        for (n, s) in edge_sks::<C>(rng) {
+            v.push((format!("sk={n}"), SecretKey::<C>(s).public_key()));
+        }
+        v
+    }
+    fn consume(&self, env: &Env<C>) {
+        pk_consume(*self, env);
+    }
+}
+
+fn sig_variants<C: Suite, T>(env: &Env<C>, wrap: impl Fn(Scheme, SigPt<C>) -> T) -> Vec<(String, T)> {
+    let mut v = Vec::new();
+    for s in SCHEMES {
+        v.push((format!("{}/honest", s.name()), wrap(s, *env.sig(s).as_raw_value())));
+        v.push((format!("{}/identity", s.name()), wrap(s, sig_id::<C>())));
+        v.push((format!("{}/generator", s.name()), wrap(s, sig_gen::<C>())));
+    }
+    v
+}
+
+impl<C: Suite> Subject<C> for Signature<C> {
+    const NAME: &'static str = "Signature";
+    const FIXED: bool = true;
+    fn variant(&self) -> String {
+        sig_scheme(self).name().into()
+    }
+    fn points(&self) -> Vec<(&'static str, PtKind, Vec<u8>)> {
+        vec![("sig", PtKind::Sig, sig_pt_bytes(self))]
+    }
+    fn samples(env: &Env<C>, _rng: &mut ChaCha20Rng, _t: bool) -> Vec<(String, Self)> {
+        sig_variants::<C, _>(env, |s, p| wrap_sig::<C>(s, p))
+    }
+    fn consume(&self, env: &Env<C>) {
+        disp_sink(self);
+        fmt_sink(self);
+        sink(self.verify(&env.pk, &env.msg).is_ok());
+        sink(self.as_raw_value());
+        sink(self.same_scheme(&env.sig(Scheme::Basic)));
+        sink(AggregateSignature::<C>::from_signatures([*self, env.sig(Scheme::Pop)]).is_ok());
+        sink(MultiSignature::<C>::from_signatures([*self, env.sig(Scheme::Pop)]).is_ok());
+        for s in SCHEMES {
+            if let Ok(ct) = env.pk.encrypt_time_lock(lscheme(s), &env.msg, &env.msg) {
+                sink(ct.decrypt(self).is_some().unwrap_u8());
+            }
+        }
+    }
+}
+
+impl<C: Suite> Subject<C> for AggregateSignature<C> {
+    const NAME: &'static str = "AggregateSignature";
+    const FIXED: bool = true;
+    fn variant(&self) -> String {
+        match self {
+            AggregateSignature::Basic(_) => "Basic".into(),
+            AggregateSignature::MessageAugmentation(_) => "MessageAugmentation".into(),
+            AggregateSignature::ProofOfPossession(_) => "ProofOfPossession".into(),
+        }
+    }
+    fn points(&self) -> Vec<(&'static str, PtKind, Vec<u8>)> {
+        let p = match self {
+            AggregateSignature::Basic(p) | AggregateSignature::MessageAugmentation(p) | AggregateSignature::ProofOfPossession(p) => p,
+        };
+        vec![("agg", PtKind::Sig, enc_pt(p))]
+    }
+    fn samples(env: &Env<C>, _rng: &mut ChaCha20Rng, _t: bool) -> Vec<(String, Self)> {
+        sig_variants::<C, _>(env, |s, p| match s {
+            Scheme::Basic => AggregateSignature::Basic(p),
+            Scheme::Aug => AggregateSignature::MessageAugmentation(p),
+            Scheme::Pop => AggregateSignature::ProofOfPossession(p),
+        })
+    }
+    fn consume(&self, env: &Env<C>) {
+        disp_sink(self);
+        fmt_sink(self);
+        let empty: Vec<(PublicKey<C>, Vec<u8>)> = vec![];
+        sink(self.verify(&empty).is_ok());
+        sink(self.verify(&[(env.pk, env.msg.clone())]).is_ok());
+        sink(self.verify(&[(env.pk, env.msg.clone()), (env.pk2, env.msg.clone())]).is_ok());
+        sink(self.verify(&[(env.pk, env.msg.clone()), (env.pk2, env.id.clone()), (PublicKey(pk_id::<C>()), vec![])]).is_ok());
+    }
+}
+
+impl<C: Suite> Subject<C> for MultiSignature<C> {
+    const NAME: &'static str = "MultiSignature";
+    const FIXED: bool = true;
+    fn variant(&self) -> String {
+        match self {
+            MultiSignature::Basic(_) => "Basic".into(),
+            MultiSignature::MessageAugmentation(_) => "MessageAugmentation".into(),
+            MultiSignature::ProofOfPossession(_) => "ProofOfPossession".into(),
+        }
+    }
+    fn points(&self) -> Vec<(&'static str, PtKind, Vec<u8>)> {
+        vec![("msig", PtKind::Sig, enc_pt(self.as_raw_value()))]
+    }
+    fn samples(env: &Env<C>, _rng: &mut ChaCha20Rng, _t: bool) -> Vec<(String, Self)> {
+        sig_variants::<C, _>(env, |s, p| match s {
+            Scheme::Basic => MultiSignature::Basic(p),
+            Scheme::Aug => MultiSignature::MessageAugmentation(p),
+            Scheme::Pop => MultiSignature::ProofOfPossession(p),
+        })
+    }
+    fn consume(&self, env: &Env<C>) {
+        disp_sink(self);
+        fmt_sink(self);
+        sink(self.as_raw_value());
+        sink(self.verify(MultiPublicKey(env.pk.0), &env.msg).is_ok());
+        sink(self.verify(MultiPublicKey(pk_id::<C>()), &env.msg).is_ok());
+        sink(self.verify(MultiPublicKey::from_public_keys([env.pk, env.pk2]), b"").is_ok());
+    }
+}
+
+impl<C: Suite> Subject<C> for MultiPublicKey<C> {
+    const NAME: &'static str = "MultiPublicKey";
+    const FIXED: bool = true;
+    const EXACT_LEN: bool = true;
+    fn points(&self) -> Vec<(&'static str, PtKind, Vec<u8>)> {
+        vec![("mpk", PtKind::Pk, enc_pt(&self.0))]
+    }
+    fn samples(env: &Env<C>, _rng: &mut ChaCha20Rng, _t: bool) -> Vec<(String, Self)> {
+        vec![
+            ("two-keys".into(), MultiPublicKey::from_public_keys([env.pk, env.pk2])),
+            ("identity".into(), MultiPublicKey(pk_id::<C>())),
+            ("one-key".into(), MultiPublicKey(env.pk.0)),
+        ]
+    }
+    fn consume(&self, env: &Env<C>) {
+        disp_sink(self);
+        fmt_sink(self);
+        for s in SCHEMES {
+            sink(crate::monitors::util::wrap_multi::<C>(s, *env.sig(s).as_raw_value()).verify(*self, &env.msg).is_ok());
+        }
+    }
+}
+
+impl<C: Suite> Subject<C> for ProofOfPossession<C> {
+    const NAME: &'static str = "ProofOfPossession";
+    const FIXED: bool = true;
+    const EXACT_LEN: bool = true;
+    fn points(&self) -> Vec<(&'static str, PtKind, Vec<u8>)> {
+        vec![("pop", PtKind::Sig, enc_pt(&self.0))]
+    }
+    fn samples(env: &Env<C>, _rng: &mut ChaCha20Rng, _t: bool) -> Vec<(String, Self)> {
+        vec![
+            ("honest".into(), env.sk.proof_of_possession().expect("pop")),
+            ("identity".into(), ProofOfPossession(sig_id::<C>())),
+            ("generator".into(), ProofOfPossession(sig_gen::<C>())),
+        ]
+    }
+    fn consume(&self, env: &Env<C>) {
+        disp_sink(self);
+        fmt_sink(self);
+        sink(self.verify(env.pk).is_ok());
+        sink(self.verify(PublicKey(pk_id::<C>())).is_ok());
+    }
+}
+
+impl<C: Suite> Subject<C> for ProofCommitment<C> {
+    const NAME: &'static str = "ProofCommitment";
+    const FIXED: bool = true;
+    const EXACT_LEN: bool = true;
+    fn variant(&self) -> String {
+        match self {
+            ProofCommitment::Basic(_) => "Basic".into(),
+            ProofCommitment::MessageAugmentation(_) => "MessageAugmentation".into(),
+            ProofCommitment::ProofOfPossession(_) => "ProofOfPossession".into(),
+        }
+    }
+    fn points(&self) -> Vec<(&'static str, PtKind, Vec<u8>)> {
+        let p = match self {
+            ProofCommitment::Basic(p) | ProofCommitment::MessageAugmentation(p) | ProofCommitment::ProofOfPossession(p) => p,
+        };
+        vec![("u", PtKind::Sig, enc_pt(p))]
+    }
+    fn samples(env: &Env<C>, _rng: &mut ChaCha20Rng, _t: bool) -> Vec<(String, Self)> {
+        let mut v = Vec::new();
+        for s in SCHEMES {
+            let (c, _) = ProofCommitment::<C>::generate(&env.msg, env.sig(s)).expect("commit");
+            v.push((format!("{}/honest", s.name()), c));
+        }
+        v.push(("Basic/identity".into(), ProofCommitment::Basic(sig_id::<C>())));
+        v.push(("ProofOfPossession/identity".into(), ProofCommitment::ProofOfPossession(sig_id::<C>())));
+        v
+    }
+    fn consume(&self, env: &Env<C>) {
+        disp_sink(self);
+        fmt_sink(self);
+        for s in SCHEMES {
+            let x = ProofCommitmentSecret::<C>(<Sc<C> as Field>::ONE);
+            sink(self.finalize(x, env.y, env.sig(s)).map(|p| p.verify(env.pk, &env.msg, env.y).is_ok()));
+        }
+    }
+}
+
+impl<C: Suite> Subject<C> for ProofCommitmentSecret<C> {
+    const NAME: &'static str = "ProofCommitmentSecret";
+    const FIXED: bool = true;
+    const EXACT_LEN: bool = true;
+    fn points(&self) -> Vec<(&'static str, PtKind, Vec<u8>)> {
+        vec![]
+    }
+    fn nonzero_scalars(&self) -> Vec<[u8; 32]> {
+        vec![self.to_be_bytes()]
+    }
+    fn samples(_env: &Env<C>, rng: &mut ChaCha20Rng, _t: bool) -> Vec<(String, Self)> {
+        edge_sks::<C>(rng).into_iter().map(|(n, s)| (n, ProofCommitmentSecret(s))).collect()
+    }
+    fn consume(&self, env: &Env<C>) {
+        sink(self.to_be_bytes());
+        sink(self.to_le_bytes());
+        fmt_sink(self);
+        let s = env.sig(Scheme::Pop);
+        if let Ok((c, _)) = ProofCommitment::<C>::generate(&env.msg, s) {
+            sink(c.finalize(*self, env.y, s).map(|p| p.verify(env.pk, &env.msg, env.y).is_ok()));
+        }
+    }
+}
+
+impl<C: Suite> Subject<C> for ProofCommitmentChallenge<C> {
+    const NAME: &'static str = "ProofCommitmentChallenge";
+    const FIXED: bool = true;
+    const EXACT_LEN: bool = true;
+    fn points(&self) -> Vec<(&'static str, PtKind, Vec<u8>)> {
+        vec![]
+    }
+    fn nonzero_scalars(&self) -> Vec<[u8; 32]> {
+        vec![self.to_be_bytes()]
+    }
+    fn samples(_env: &Env<C>, rng: &mut ChaCha20Rng, _t: bool) -> Vec<(String, Self)> {
+        edge_sks::<C>(rng).into_iter().map(|(n, s)| (n, ProofCommitmentChallenge(s))).collect()
+    }
+    fn consume(&self, env: &Env<C>) {
+        sink(self.to_be_bytes());
+        sink(self.to_le_bytes());
+        fmt_sink(self);
+        let s = env.sig(Scheme::Basic);
+        if let Ok((c, x)) = ProofCommitment::<C>::generate(&env.msg, s) {
+            sink(c.finalize(x, *self, s).map(|p| p.verify(env.pk, &env.msg, *self).is_ok()));
+        }
+    }
+}
+
+fn pok_parts<C: Suite>(p: &ProofOfKnowledge<C>) -> (Scheme, SigPt<C>, SigPt<C>) {
+    match *p {
+        ProofOfKnowledge::Basic { u, v } => (Scheme::Basic, u, v),
+        ProofOfKnowledge::MessageAugmentation { u, v } => (Scheme::Aug, u, v),
+        ProofOfKnowledge::ProofOfPossession { u, v } => (Scheme::Pop, u, v),
+    }
+}
+
+fn pok_samples<C: Suite>(env: &Env<C>) -> Vec<(String, ProofOfKnowledge<C>)> {
+    let mut v = Vec::new();
+    for s in SCHEMES {
+        let sig = env.sig(s);
+        let (c, x) = ProofCommitment::<C>::generate(&env.msg, sig).expect("commit");
+        v.push((format!("{}/honest", s.name()), c.finalize(x, env.y, sig).expect("finalize")));
+    }
+    v.push(("Basic/identity".into(), ProofOfKnowledge::Basic { u: sig_id::<C>(), v: sig_id::<C>() }));
+    v.push(("MessageAugmentation/identity-u".into(), ProofOfKnowledge::MessageAugmentation { u: sig_id::<C>(), v: sig_gen::<C>() }));
+    v
+}
+
+impl<C: Suite> Subject<C> for ProofOfKnowledge<C> {
+    const NAME: &'static str = "ProofOfKnowledge";
+    const FIXED: bool = true;
+    fn variant(&self) -> String {
+        pok_parts(self).0.name().into()
+    }
+    fn points(&self) -> Vec<(&'static str, PtKind, Vec<u8>)> {
+        let (_, u, v) = pok_parts(self);
+        vec![("u", PtKind::Sig, enc_pt(&u)), ("v", PtKind::Sig, enc_pt(&v))]
+    }
+    fn samples(env: &Env<C>, _rng: &mut ChaCha20Rng, _t: bool) -> Vec<(String, Self)> {
+        pok_samples(env)
+    }
+    fn consume(&self, env: &Env<C>) {
+        disp_sink(self);
+        fmt_sink(self);
+        sink(self.verify(env.pk, &env.msg, env.y).is_ok());
+        sink(self.verify(PublicKey(pk_id::<C>()), b"", ProofCommitmentChallenge(<Sc<C> as Field>::ZERO)).is_ok());
+    }
+}
+
+impl<C: Suite> Subject<C> for ProofOfKnowledgeTimestamp<C> {
+    const NAME: &'static str = "ProofOfKnowledgeTimestamp";
+    const FIXED: bool = true;
+    fn variant(&self) -> String {
+        pok_parts(&self.proof).0.name().into()
+    }
+    fn points(&self) -> Vec<(&'static str, PtKind, Vec<u8>)> {
+        let (_, u, v) = pok_parts(&self.proof);
+        vec![("u", PtKind::Sig, enc_pt(&u)), ("v", PtKind::Sig, enc_pt(&v))]
+    }
+    fn samples(env: &Env<C>, _rng: &mut ChaCha20Rng, _t: bool) -> Vec<(String, Self)> {
+        let mut v = Vec::new();
+        for s in SCHEMES {
+            let p = ProofOfKnowledgeTimestamp::<C>::generate(&env.msg, env.sig(s)).expect("ts proof");
+            v.push((format!("{}/honest", s.name()), p));
+            v.push((format!("{}/timestamp=0", s.name()), ProofOfKnowledgeTimestamp { proof: p.proof, timestamp: 0 }));
+            v.push((format!("{}/timestamp=u64::MAX", s.name()), ProofOfKnowledgeTimestamp { proof: p.proof, timestamp: u64::MAX }));
+            v.push((format!("{}/timestamp=127", s.name()), ProofOfKnowledgeTimestamp { proof: p.proof, timestamp: 127 }));
+            v.push((format!("{}/timestamp=128", s.name()), ProofOfKnowledgeTimestamp { proof: p.proof, timestamp: 128 }));
+        }
+        v
+    }
+    fn consume(&self, env: &Env<C>) {
+        disp_sink(self);
+        fmt_sink(self);
+        for t in [None, Some(0u64), Some(1), Some(1000), Some(u64::MAX)] {
+            sink(self.verify(env.pk, &env.msg, t).is_ok());
+        }
+    }
+}
+
+impl<C: Suite> Subject<C> for SecretKeyShare<C> {
+    const NAME: &'static str = "SecretKeyShare";
+    const FIXED: bool = true;
+    fn points(&self) -> Vec<(&'static str, PtKind, Vec<u8>)> {
+        vec![]
+    }
+    fn samples(env: &Env<C>, rng: &mut ChaCha20Rng, _t: bool) -> Vec<(String, Self)> {
+        // every share identifier 1..=255
+        let all = env.sk.split_with_rng(2, 255, &mut *rng).expect("split 255");
+        all.into_iter().map(|s| (format!("id={}", s.0.identifier()), s)).collect()
+    }
+    fn consume(&self, env: &Env<C>) {
+        fmt_sink(self);
+        sink(self.as_raw_value());
+        sink(self.public_key().is_ok());
+        sink(SecretKey::<C>::combine(&[self.clone(), env.shares[0].clone()]).is_ok());
+        sink(SecretKey::<C>::combine(&[self.clone()]).is_ok());
+        let ct = env.pk.sign_crypt(SignatureSchemes::Basic, &env.msg);
+        sink(ct.create_decryption_share(self).is_ok());
+    }
+}
+
+fn share_ids(thorough: bool) -> Vec<u8> {
+    if thorough {
+        (1..=255).collect()
+    } else {
+        vec![1, 2, 3, 127, 128, 254, 255]
+    }
+}
+
+impl<C: Suite> Subject<C> for PublicKeyShare<C> {
+    const NAME: &'static str = "PublicKeyShare";
+    const FIXED: bool = true;
+    fn points(&self) -> Vec<(&'static str, PtKind, Vec<u8>)> {
+        vec![("payload", PtKind::PkShare, self.0.value_vec())]
+    }
+    fn samples(env: &Env<C>, rng: &mut ChaCha20Rng, t: bool) -> Vec<(String, Self)> {
+        let all = env.sk.split_with_rng(3, 255, &mut *rng).expect("split 255");
+        let ids = share_ids(t);
+        let mut v: Vec<(String, Self)> = all.iter().filter(|s| ids.contains(&s.0.identifier())).map(|s| (format!("id={}", s.0.identifier()), s.public_key().expect("pk share"))).collect();
+        v.push(("identity-payload".into(), PublicKeyShare(crate::monitors::util::pk_share_raw::<C>(9, &enc_pt(&pk_id::<C>())))));
+        v
+    }
+    fn consume(&self, env: &Env<C>) {
+        disp_sink(self);
+        fmt_sink(self);
+        for s in [Scheme::Basic, Scheme::Pop] {
+            if let Ok(ss) = env.shares[0].sign(lscheme(s), &env.msg) {
+                sink(self.verify(&ss, &env.msg).is_ok());
+            }
+        }
+        sink(PublicKey::<C>::from_shares(&[*self, env.pk_shares[0]]).is_ok());
+        sink(PublicKey::<C>::from_shares(&[*self]).is_ok());
+        let ct = env.pk.sign_crypt(SignatureSchemes::Basic, &env.msg);
+        if let Ok(ds) = ct.create_decryption_share(&env.shares[0]) {
+            sink(ds.verify(self, &ct).is_ok());
+        }
+    }
+}
+
+impl<C: Suite> Subject<C> for SignatureShare<C> {
+    const NAME: &'static str = "SignatureShare";
+    const FIXED: bool = true;
+    fn variant(&self) -> String {
+        match self {
+            SignatureShare::Basic(_) => "Basic".into(),
+            SignatureShare::MessageAugmentation(_) => "MessageAugmentation".into(),
+            SignatureShare::ProofOfPossession(_) => "ProofOfPossession".into(),
+        }
+    }
+    fn points(&self) -> Vec<(&'static str, PtKind, Vec<u8>)> {
+        vec![("payload", PtKind::SigShare, self.as_raw_value().value_vec())]
+    }
+    fn samples(env: &Env<C>, rng: &mut ChaCha20Rng, t: bool) -> Vec<(String, Self)> {
+        let all = env.sk.split_with_rng(3, 255, &mut *rng).expect("split 255");
+        let ids = share_ids(t);
+        let mut v = Vec::new();
+        for s in all.iter().filter(|s| ids.contains(&s.0.identifier())) {
+            for sch in [Scheme::Basic, Scheme::Pop] {
+                v.push((format!("{}/id={}", sch.name(), s.0.identifier()), s.sign(lscheme(sch), &env.msg).expect("partial sign")));
+            }
+        }
+        // the MessageAugmentation variant exists in the type even though shares cannot produce it
+        if let SignatureShare::Basic(inner) = v[0].1 {
+            v.push(("MessageAugmentation/relabelled".into(), SignatureShare::MessageAugmentation(inner)));
+        }
+        v
+    }
+    fn consume(&self, env: &Env<C>) {
+        disp_sink(self);
+        fmt_sink(self);
+        sink(self.as_raw_value());
+        sink(self.verify(&env.pk_shares[0], &env.msg).is_ok());
+        sink(self.same_scheme(self));
+        sink(Signature::<C>::from_shares(&[*self]).is_ok());
+        if let Ok(o) = env.shares[1].sign(SignatureSchemes::Basic, &env.msg) {
+            sink(Signature::<C>::from_shares(&[*self, o]).is_ok());
+            sink(Signature::<C>::from_shares(&[o, *self]).is_ok());
+        }
+    }
+}
+
+impl<C: Suite> Subject<C> for SignCryptCiphertext<C> {
+    const NAME: &'static str = "SignCryptCiphertext";
+    const FIXED: bool = false;
+    fn variant(&self) -> String {
+        rscheme(self.scheme).name().into()
+    }
+    fn points(&self) -> Vec<(&'static str, PtKind, Vec<u8>)> {
+        vec![("u", PtKind::Pk, enc_pt(&self.u)), ("w", PtKind::Sig, enc_pt(&self.w))]
+    }
+    fn samples(env: &Env<C>, rng: &mut ChaCha20Rng, t: bool) -> Vec<(String, Self)> {
+        let mut v = Vec::new();
+        for s in SCHEMES {
+            for len in [0usize, 1, 24, 127, 128, 200] {
+                v.push((format!("{}/len={len}", s.name()), env.pk.sign_crypt(lscheme(s), gen::random_bytes(len, rng))));
+            }
+        }
+        v.push(("Basic/len=65536".into(), env.pk.sign_crypt(SignatureSchemes::Basic, gen::random_bytes(65536, rng))));
+        if t {
+            v.push(("ProofOfPossession/len=16384".into(), env.pk.sign_crypt(SignatureSchemes::ProofOfPossession, gen::random_bytes(16384, rng))));
+        }
+        let mut c = v[0].1.clone();
+        c.u = pk_id::<C>();
+        c.w = sig_id::<C>();
+        c.v.clear();
+        v.push(("Basic/identity-points-empty-payload".into(), c));
+        v
+    }
+    fn consume(&self, env: &Env<C>) {
+        disp_sink(self);
+        fmt_sink(self);
+        sink(self.is_valid().unwrap_u8());
+        sink(self.decrypt(&env.sk).is_some().unwrap_u8());
+        sink(self.decrypt(&env.sk2).is_some().unwrap_u8());
+        sink(env.sk.sign_decryption_key::<&[u8]>(self).decrypt(self).is_some().unwrap_u8());
+        let ds: Vec<SignDecryptionShare<C>> = env.shares.iter().filter_map(|s| self.create_decryption_share(s).ok()).collect();
+        sink(self.decrypt_with_shares(&ds).is_some().unwrap_u8());
+        let none: Vec<SignDecryptionShare<C>> = vec![];
+        sink(self.decrypt_with_shares(&none).is_some().unwrap_u8());
+        if !ds.is_empty() {
+            sink(self.decrypt_with_shares(&ds[..1]).is_some().unwrap_u8());
+            sink(ds[0].verify(&env.pk_shares[0], self).is_ok());
+        }
+        sink(SignCryptDecryptionKey::<C>::from_shares(&ds).map(|k| k.decrypt(self).is_some().unwrap_u8()));
+    }
+}
+
+impl<C: Suite> Subject<C> for SignCryptDecryptionKey<C> {
+    const NAME: &'static str = "SignCryptDecryptionKey";
+    const FIXED: bool = true;
+    fn points(&self) -> Vec<(&'static str, PtKind, Vec<u8>)> {
+        vec![("key", PtKind::Pk, enc_pt(&self.0))]
+    }
+    fn samples(env: &Env<C>, _rng: &mut ChaCha20Rng, _t: bool) -> Vec<(String, Self)> {
+        let ct = env.pk.sign_crypt(SignatureSchemes::Basic, &env.msg);
+        vec![("honest".into(), env.sk.sign_decryption_key::<&[u8]>(&ct)), ("identity".into(), SignCryptDecryptionKey(pk_id::<C>()))]
+    }
+    fn consume(&self, env: &Env<C>) {
+        fmt_sink(self);
+        for s in SCHEMES {
+            let ct = env.pk.sign_crypt(lscheme(s), &env.msg);
+            sink(self.decrypt(&ct).is_some().unwrap_u8());
+        }
+    }
+}
+
+impl<C: Suite> Subject<C> for SignDecryptionShare<C> {
+    const NAME: &'static str = "SignDecryptionShare";
+    const FIXED: bool = true;
+    fn points(&self) -> Vec<(&'static str, PtKind, Vec<u8>)> {
+        vec![("payload", PtKind::PkShare, self.0.value_vec())]
+    }
+    fn samples(env: &Env<C>, _rng: &mut ChaCha20Rng, _t: bool) -> Vec<(String, Self)> {
+        let ct = env.pk.sign_crypt(SignatureSchemes::Basic, &env.msg);
+        env.shares.iter().map(|s| (format!("id={}", s.0.identifier()), ct.create_decryption_share(s).expect("share"))).collect()
+    }
+    fn consume(&self, env: &Env<C>) {
+        fmt_sink(self);
+        for s in SCHEMES {
+            let ct = env.pk.sign_crypt(lscheme(s), &env.msg);
+            sink(self.verify(&env.pk_shares[0], &ct).is_ok());
+            sink(ct.decrypt_with_shares(&[self.clone()]).is_some().unwrap_u8());
+            if let Ok(o) = ct.create_decryption_share(&env.shares[1]) {
+                sink(ct.decrypt_with_shares(&[self.clone(), o.clone()]).is_some().unwrap_u8());
+                sink(SignCryptDecryptionKey::<C>::from_shares(&[self.clone(), o]).is_ok());
+            }
+        }
+        sink(SignCryptDecryptionKey::<C>::from_shares(&[self.clone()]).is_ok());
+    }
+}
+
+impl<C: Suite> Subject<C> for TimeCryptCiphertext<C> {
+    const NAME: &'static str = "TimeCryptCiphertext";
+    const FIXED: bool = false;
+    fn variant(&self) -> String {
+        rscheme(self.scheme).name().into()
+    }
+    fn points(&self) -> Vec<(&'static str, PtKind, Vec<u8>)> {
+        vec![("u", PtKind::Pk, enc_pt(&self.u))]
+    }
+    fn samples(env: &Env<C>, rng: &mut ChaCha20Rng, _t: bool) -> Vec<(String, Self)> {
+        let mut v = Vec::new();
+        for s in SCHEMES {
+            for len in [0usize, 1, 24, 127, 128, 200] {
+                v.push((format!("{}/len={len}", s.name()), env.pk.encrypt_time_lock(lscheme(s), gen::random_bytes(len, rng), &env.id).expect("time lock")));
+            }
+        }
+        v.push(("Basic/len=65536".into(), env.pk.encrypt_time_lock(SignatureSchemes::Basic, gen::random_bytes(65536, rng), b"").expect("time lock")));
+        let mut c = v[0].1.clone();
+        c.u = pk_id::<C>();
+        c.w.clear();
+        v.push(("Basic/identity-u-empty-payload".into(), c));
+        v
+    }
+    fn consume(&self, env: &Env<C>) {
+        fmt_sink(self);
+        for s in SCHEMES {
+            sink(self.decrypt(&env.sk.sign(lscheme(s), &env.id).expect("sign")).is_some().unwrap_u8());
+            sink(self.decrypt(&wrap_sig::<C>(s, sig_id::<C>())).is_some().unwrap_u8());
+        }
+    }
+}
+
+impl<C: Suite> Subject<C> for ElGamalCiphertext<C> {
+    const NAME: &'static str = "ElGamalCiphertext";
+    const FIXED: bool = true;
+    fn points(&self) -> Vec<(&'static str, PtKind, Vec<u8>)> {
+        vec![("c1", PtKind::Pk, enc_pt(&self.c1)), ("c2", PtKind::Pk, enc_pt(&self.c2))]
+    }
+    fn samples(env: &Env<C>, _rng: &mut ChaCha20Rng, _t: bool) -> Vec<(String, Self)> {
+        vec![
+            ("honest".into(), env.pk.encrypt_key_el_gamal(&env.sk2).expect("elgamal")),
+            ("identity".into(), ElGamalCiphertext { c1: pk_id::<C>(), c2: pk_id::<C>() }),
+        ]
+    }
+    fn consume(&self, env: &Env<C>) {
+        disp_sink(self);
+        fmt_sink(self);
+        sink(self.decrypt(&env.sk));
+        sink(*self + *self);
+        sink(ElGamalDecryptionKey::<C>(pk_id::<C>()).decrypt(self));
+    }
+}
+
+impl<C: Suite> Subject<C> for ElGamalProof<C> {
+    const NAME: &'static str = "ElGamalProof";
+    const FIXED: bool = true;
+    fn points(&self) -> Vec<(&'static str, PtKind, Vec<u8>)> {
+        vec![("c1", PtKind::Pk, enc_pt(&self.ciphertext.c1)), ("c2", PtKind::Pk, enc_pt(&self.ciphertext.c2))]
+    }
+    fn samples(env: &Env<C>, _rng: &mut ChaCha20Rng, _t: bool) -> Vec<(String, Self)> {
+        let p = env.pk.encrypt_key_el_gamal_with_proof(&env.sk2).expect("elgamal proof");
+        let mut z = p;
+        z.message_proof = <Sc<C> as Field>::ONE;
+        z.blinder_proof = -<Sc<C> as Field>::ONE;
+        vec![("honest".into(), p), ("edge-scalars".into(), z)]
+    }
+    fn consume(&self, env: &Env<C>) {
+        disp_sink(self);
+        fmt_sink(self);
+        sink(self.verify(env.pk).is_ok());
+        sink(self.verify(PublicKey(pk_id::<C>())).is_ok());
+        sink(self.verify_and_decrypt(&env.sk).is_ok());
+        sink(self.verify_and_decrypt(&SecretKey(<Sc<C> as Field>::ZERO)).is_ok());
+    }
+}
+
+impl<C: Suite> Subject<C> for ElGamalDecryptionShare<C> {
+    const NAME: &'static str = "ElGamalDecryptionShare";
+    const FIXED: bool = true;
+    fn points(&self) -> Vec<(&'static str, PtKind, Vec<u8>)> {
+        vec![("payload", PtKind::PkShare, self.0.value_vec())]
+    }
+    fn samples(env: &Env<C>, _rng: &mut ChaCha20Rng, _t: bool) -> Vec<(String, Self)> {
+        let ct = env.pk.encrypt_key_el_gamal(&env.sk2).expect("elgamal");
+        env.shares
+            .iter()
+            .map(|s| (format!("id={}", s.0.identifier()), ElGamalDecryptionShare(<C as BlsSignatureCore>::public_key_share_with_generator(&s.0, ct.c1).expect("share"))))
+            .collect()
+    }
+    fn consume(&self, env: &Env<C>) {
+        fmt_sink(self);
+        sink(ElGamalDecryptionKey::<C>::from_shares(&[self.clone()]).is_ok());
+        let ct = env.pk.encrypt_key_el_gamal(&env.sk2).expect("elgamal");
+        if let Ok(o) = <C as BlsSignatureCore>::public_key_share_with_generator(&env.shares[1].0, ct.c1) {
+            sink(ElGamalDecryptionKey::<C>::from_shares(&[self.clone(), ElGamalDecryptionShare(o)]).map(|k| k.decrypt(&ct)));
+        }
+    }
+}
+
+impl<C: Suite> Subject<C> for ElGamalDecryptionKey<C> {
+    const NAME: &'static str = "ElGamalDecryptionKey";
+    const FIXED: bool = true;
+    fn points(&self) -> Vec<(&'static str, PtKind, Vec<u8>)> {
+        vec![("key", PtKind::Pk, enc_pt(&self.0))]
+    }
+    fn samples(env: &Env<C>, _rng: &mut ChaCha20Rng, _t: bool) -> Vec<(String, Self)> {
+        let ct = env.pk.encrypt_key_el_gamal(&env.sk2).expect("elgamal");
+        vec![("honest".into(), ElGamalDecryptionKey(ct.c1 * env.sk.0)), ("identity".into(), ElGamalDecryptionKey(pk_id::<C>()))]
+    }
+    fn consume(&self, env: &Env<C>) {
+        let ct = env.pk.encrypt_key_el_gamal(&env.sk2).expect("elgamal");
+        sink(self.decrypt(&ct));
+    }
+}
+
+fn g1_share_samples<C: Suite>(env: &Env<C>) -> Vec<Vec<u8>> {
+    // whichever of the two containers of this suite is the 49-byte one
+    let a = Vec::from(&env.pk_shares[0]);
+    let b = env.shares[0].sign(SignatureSchemes::Basic, &env.msg).map(|s| s.as_raw_value().value_vec()).unwrap_or_default();
+    let mut out = vec![a];
+    let mut sb = vec![env.shares[0].0.identifier()];
+    sb.extend_from_slice(&b);
+    out.push(sb);
+    out
+}
+
+impl<C: Suite> Subject<C> for InnerPointShareG1 {
+    const NAME: &'static str = "InnerPointShareG1";
+    const FIXED: bool = true;
+    const EXACT_LEN: bool = true;
+    fn points(&self) -> Vec<(&'static str, PtKind, Vec<u8>)> {
+        vec![]
+    }
+    fn samples(env: &Env<C>, _rng: &mut ChaCha20Rng, _t: bool) -> Vec<(String, Self)> {
+        let mut v: Vec<(String, Self)> = g1_share_samples(env).into_iter().filter(|b| b.len() == 49).map(|b| ("honest".to_string(), InnerPointShareG1(b.try_into().unwrap()))).collect();
+        v.push(("zero".into(), InnerPointShareG1([0u8; 49])));
+        v.push(("ones".into(), InnerPointShareG1([0xffu8; 49])));
+        v
+    }
+    fn consume(&self, _env: &Env<C>) {
+        disp_sink(self);
+        fmt_sink(self);
+        sink(format!("{self:x} {self:X}"));
+        sink(self.identifier());
+        sink(self.value_vec());
+        sink(bool::from(Share::is_zero(self)));
+        sink(self.as_group_element::<blsful::inner_types::G1Projective>().is_ok());
+    }
+}
+
+impl<C: Suite> Subject<C> for InnerPointShareG2 {
+    const NAME: &'static str = "InnerPointShareG2";
+    const FIXED: bool = true;
+    const EXACT_LEN: bool = true;
+    fn points(&self) -> Vec<(&'static str, PtKind, Vec<u8>)> {
+        vec![]
+    }
+    fn samples(env: &Env<C>, _rng: &mut ChaCha20Rng, _t: bool) -> Vec<(String, Self)> {
+        let mut v: Vec<(String, Self)> = g1_share_samples(env).into_iter().filter(|b| b.len() == 97).map(|b| ("honest".to_string(), InnerPointShareG2(b.try_into().unwrap()))).collect();
+        v.push(("zero".into(), InnerPointShareG2([0u8; 97])));
+        v.push(("ones".into(), InnerPointShareG2([0xffu8; 97])));
+        v
+    }
+    fn consume(&self, _env: &Env<C>) {
+        disp_sink(self);
+        fmt_sink(self);
+        sink(format!("{self:x} {self:X}"));
+        sink(self.identifier());
+        sink(self.value_vec());
+        sink(bool::from(Share::is_zero(self)));
+        sink(self.as_group_element::<blsful::inner_types::G2Projective>().is_ok());
+    }
+}
+
+/// generator multiples used as "some valid point"
+pub fn some_pk_point<C: Suite>(k: u64) -> PkPt<C> {
+    pk_gen::<C>() * <Sc<C> as From<u64>>::from(k)
+}
+
+pub fn some_sig_point<C: Suite>(k: u64) -> SigPt<C> {
+    sig_gen::<C>() * <Sc<C> as From<u64>>::from(k)
+}
+
+#[allow(dead_code)]
+fn _assert_group<C: Suite>() {
+    let _ = <PkPt<C> as Group>::identity();
+}
